@@ -165,7 +165,8 @@ LeaderInformational(p) ==
               <<idx("facility_related_data_4"), "record_sequence_number", <<1, 7, 44>> >> >>
 Informational(file, p) ==
     CASE file = "leader" -> LeaderInformational(p)
-      [] file = "volume" -> [j \in 1..(Len(VolumeRecords(p)) - 1) |-> <<j + 1, "preamble.record_sequence_number", <<j + 2, 1, 999>> >>]
+      [] file = "volume" -> << <<1, "number_of_text_records_in_volume_directory", <<2, 3, 0>> >> >>   \* the text record is found structurally, behind the pointer records
+                            \o [j \in 1..(Len(VolumeRecords(p)) - 1) |-> <<j + 1, "preamble.record_sequence_number", <<j + 2, 1, 999>> >>]
       [] OTHER -> << >>
 
 (* the complete placed instance handed to the synthesiser *)
